@@ -8,6 +8,7 @@ import (
 	"fmt"
 	"os"
 	"path/filepath"
+	"sync/atomic"
 
 	"tags.cncf.io/container-device-interface/pkg/cdi"
 )
@@ -123,21 +124,51 @@ func checkC01(c *Ctx) {
 		p.ConfPhys = append([]int{len(p.Phys) - 1}, p.ConfPhys...)
 		p.Protect = len(p.Phys) - 1
 		p.Write()
+		history := []string{"initial"}
+		// sometimes a change step is made from inside the directory scan of the
+		// constructor or of a reconfiguration (the watch and the scan together must
+		// not let it slip through)
+		var armed atomic.Bool
+		unhook := hookPrefix(root, func(point, arg string, _ int) {
+			if point == "scan.beforeRead" && armed.CompareAndSwap(true, false) {
+				history = append(history, "from inside the scan, at "+filepath.Base(arg)+": "+p.Step(r))
+				c.Count("change_steps_made_inside_a_scan", 1)
+			}
+		})
+		defer unhook()
+		armed.Store(chance(r, 30))
 		a, err := newAutoCache(root, anchor, p.Conf)
+		armed.Store(false)
 		if err != nil {
 			c.Inconclusive("no-inotify")
 			return
 		}
 		defer a.Close()
-		history := []string{"initial"}
+		if len(history) > 1 {
+			if !a.Quiesce() {
+				c.Inconclusive("quiesce-timeout")
+				return
+			}
+			a.C.Refresh()
+		}
 		steps := 1 + r.Intn(4)
 		for k := 0; k <= steps; k++ {
 			if k > 0 && chance(r, 25) {
 				history = append(history, p.Relist(r, p.Protect))
 				c.Count("reconfigurations_auto", 1)
 				o, ru := withDirs(p.Conf)
+				armed.Store(chance(r, 30))
+				n := len(history)
 				a.C.Configure(o)
+				armed.Store(false)
 				ru()
+				if len(history) > n {
+					if !a.Quiesce() {
+						c.Inconclusive("quiesce-timeout")
+						return
+					}
+					a.C.Refresh()
+				}
 			} else if k > 0 {
 				history = append(history, p.Step(r))
 				if !a.Quiesce() {
